@@ -191,6 +191,8 @@ class Canon:
     if isinstance(x, collections.defaultdict):
       f = x.default_factory
       ft = None if f is None else (symbol_term(f) if is_symbol(f) else ('obj', type(f).__qualname__))
+      if self.opaque_by_eq:
+        ft = None  # "by the values' own ==": defaultdicts compare by their items only
       return ('defaultdict', ft, self._items(x))
     if isinstance(x, dict):
       return ('dict', type(x).__qualname__, self._items(x))
